@@ -32,7 +32,9 @@ Common == { <<"header", "truncated">>, <<"header", "garbage">>, <<"callId", "mis
             <<"cellCount", "plus1">>, <<"cellCount", "minus1">>, <<"cellCount", "huge">>,
             \* counts n for which n * k wraps around 2^32 to a small number (k = plausible per-cell sizes): a size check done in
             \* 32-bit arithmetic lets them through, and the count is then taken at its word
-            <<"cellCount", "wrap8">>, <<"cellCount", "wrap16">>, <<"cellCount", "wrap24">>, <<"cellCount", "wrap32">>, <<"cellCount", "wrap48">> }
+            <<"cellCount", "wrap8">>, <<"cellCount", "wrap16">>, <<"cellCount", "wrap24">>, <<"cellCount", "wrap32">>, <<"cellCount", "wrap48">>,
+            \* the count is a SIGNED 32-bit field of the protocol: a negative count is a count like any other wrong one
+            <<"cellCount", "neg1">>, <<"cellCount", "neg3">>, <<"cellCount", "minInt">> }
 ScanOnly == { <<"partialFlags", "shorter">>, <<"partialFlags", "longer">>, <<"partialFlags", "missing">> }
 MultiOnly == { <<"index", "zero">>, <<"index", "outOfRange">>, <<"index", "hole">>, <<"index", "duplicate">>,
                <<"result", "omitted">>, <<"result", "both">>, <<"result", "neither">>,
